@@ -31,8 +31,8 @@ ASSUMPTIONS = [
 ]
 BUDGET = {"quick": (6, 800), "thorough": (16, 6000)}
 
-KEYS = ["cls:Evt", "cls:Jet", "cls:Trk", "m:Evt.jets", "m:Evt.met", "m:Jet.pt", "m:Jet.trks", "m:Trk.pt", "fn", "prop:Jet.attr", "cls:Base", "m:Base.eta", "fn2"]
-METHODS = {"Base": [("eta", "float")], "Evt": [("met", "float"), ("jets", "Iterable[Jet]")], "Jet": [("pt", "float"), ("trks", "Iterable[Trk]")], "Trk": [("pt", "float")]}
+KEYS = ["cls:Evt", "cls:Jet", "cls:Trk", "m:Evt.jets", "m:Evt.met", "m:Jet.pt", "m:Jet.trks", "m:Trk.pt", "fn", "prop:Jet.attr", "cls:Base", "m:Base.eta", "fn2", "m:Jet.calib"]
+METHODS = {"Base": [("eta", "float")], "Evt": [("met", "float"), ("jets", "Iterable[Jet]")], "Jet": [("pt", "float"), ("trks", "Iterable[Trk]"), ("calib", "float")], "Trk": [("pt", "float")]}
 BASES = {"Jet": "Base", "Trk": "Base"}  # Jet and Trk inherit eta() from Base
 
 
@@ -46,6 +46,8 @@ def site_keys(cbs, cls, meth):
 
 
 def _scalar_of(draw, cls):
+    if cls == "Jet" and draw(st.integers(0, 9)) < 2:
+        return "calib"
     if cls in BASES and draw(st.integers(0, 9)) < 4:
         return "eta"
     return SCALAR[cls]
@@ -166,8 +168,8 @@ def render(ir, cbs, mode):
     if k == "site":
         _, recv, cls, meth, marker = ir
         if mode == "written":
-            return f"{R(recv)}.{meth}({marker})"
-        name, args = meth, [str(marker)]
+            return f"{R(recv)}.{meth}({marker}, lambda q: q + 1)" if meth == "calib" else f"{R(recv)}.{meth}({marker})"
+        name, args = meth, [str(marker)] + (["lambda q: q + 1"] if meth == "calib" else [])
         for key in site_keys(cbs, cls, meth):
             rw = cbs.get(key)
             name = _rw_method(name, rw)
@@ -291,7 +293,9 @@ def build(cbs, log):
 
         return pcb
 
-    ns = {"Iterable": Iterable, "func_adl_callback": func_adl_callback, "func_adl_parameterized_call": func_adl_parameterized_call}
+    from typing import Callable
+
+    ns = {"Iterable": Iterable, "Callable": Callable, "func_adl_callback": func_adl_callback, "func_adl_parameterized_call": func_adl_parameterized_call}
     src = []
     for cls in ("Base", "Trk", "Jet", "Evt"):
         if cbs.get(f"cls:{cls}"):
@@ -303,7 +307,8 @@ def build(cbs, log):
             if cbs.get(key):
                 ns[f"_cb_{cls}_{meth}"] = mk(key, cbs[key])
                 src.append(f"    @func_adl_callback(_cb_{cls}_{meth})")
-            src.append(f"    def {meth}(self, tag: int) -> '{ret}': ...")
+            # calib takes a lambda: a call site whose lambda argument cannot be followed (Jet is not a collection) is a call site still
+            src.append(f"    def {meth}(self, tag: int{', f: Callable' if meth == 'calib' else ''}) -> '{ret}': ...")
         if cls == "Jet":
             if cbs.get("prop:Jet.attr"):
                 ns["_cb_prop"] = mkp("prop:Jet.attr", cbs["prop:Jet.attr"])
